@@ -111,6 +111,16 @@ def run(ctx):
         ds['scalar'] = da
         how = rng.choice(['name', 'array'])
         arg = 'scalar' if how == 'name' else ds['scalar']
+        if how == 'array' and n % 2 == 1:
+            # the array carries coordinate labels of its own on the surface dimensions (another spelling of the same axis:
+            # rounded through float32, or counted the other way round): values go to cells by position
+            relabel = {}
+            for x in gdims:
+                nlab = ds.sizes[x]
+                relabel[x] = (numpy.asarray(ds[x].values, dtype='f4').astype('f8') + 1e-4) if x in ds.coords else numpy.arange(nlab)[::-1] * 10.0
+            arg = xarray.DataArray(ds['scalar'].values, dims=ds['scalar'].dims, coords={x: (x, v) for x, v in relabel.items()},
+                                   attrs=ds['scalar'].attrs, name='scalar')
+            how = 'array with its own labels'
         case = {'dataset': label, 'cells': ncell, 'without_geometry': holes, 'given_as': how, 'dims': list(da.dims)}
         ctx.case((label, 'scalar', how, tuple(da.dims)), holes > 0, sample=case if holes and len(ctx.samples) < 3 else None)
         with warnings.catch_warnings():
